@@ -60,6 +60,246 @@ Proof.
   - apply outs_from_incr.
 Qed.
 
+(* ---------- CreateOffer's recompute loop ---------- *)
+
+Definition call_res (s v : N) (c : gcall) : call_result :=
+  if (S (length (snd c)) <=? max_retries)%nat then Returned (s, v + N.of_nat (gens_of c)) else Excessive.
+
+(* what a history does from a saved origin (s, v) with s, v <> 0: every call
+   burns one version per generation and hands out the last one *)
+Fixpoint calls_spec (s v : N) (h : list gcall) : list call_result :=
+  match h with
+  | [] => []
+  | c :: t => call_res s v c :: calls_spec s (v + N.of_nat (gens_of c)) t
+  end.
+
+Lemma max_retries_pos : (0 < max_retries)%nat.
+Proof. unfold max_retries. lia. Qed.
+
+Lemma gens_of_pos c : (1 <= gens_of c)%nat.
+Proof. unfold gens_of. pose proof max_retries_pos. lia. Qed.
+
+Lemma gens_of_le c : (gens_of c <= max_retries)%nat.
+Proof. unfold gens_of. lia. Qed.
+
+Opaque max_retries.
+
+(* the loop from a non-zero saved origin, entered with [count] changes seen *)
+Lemma offer_loop_nonzero retries : forall count d s v,
+  s <> 0 -> v <> 0 -> (count < max_retries)%nat ->
+  let n := Nat.min (S (length retries)) (max_retries - count) in
+  v + N.of_nat n < 2 ^ 64 ->
+  offer_loop (s, v) count d retries =
+  ((s, v + N.of_nat n),
+   if (S (length retries) <=? max_retries - count)%nat then Returned (s, v + N.of_nat n) else Excessive).
+Proof.
+  induction retries as [|d' rest IH]; intros count [dsid dver] s v Hs Hv Hc n Hb; subst n.
+  - cbn [offer_loop update length].
+    destruct (v =? 0) eqn:E1; [lia|]. destruct (s =? 0) eqn:E2; [lia|].
+    replace (Nat.min 1 (max_retries - count)) with 1%nat in * by lia.
+    rewrite u64_small by lia.
+    destruct (1 <=? max_retries - count)%nat eqn:E3; [|apply Nat.leb_gt in E3; lia].
+    reflexivity.
+  - cbn [offer_loop update]. cbn [length] in *.
+    destruct (v =? 0) eqn:E1; [lia|]. destruct (s =? 0) eqn:E2; [lia|].
+    rewrite u64_small by lia.
+    destruct (max_retries <=? S count)%nat eqn:E3.
+    + apply Nat.leb_le in E3.
+      replace (Nat.min (S (S (length rest))) (max_retries - count)) with 1%nat by lia.
+      destruct (S (S (length rest)) <=? max_retries - count)%nat eqn:E4;
+        [apply Nat.leb_le in E4; lia|]. reflexivity.
+    + apply Nat.leb_gt in E3.
+      rewrite IH by lia.
+      replace (v + 1 + N.of_nat (Nat.min (S (length rest)) (max_retries - S count)))
+        with (v + N.of_nat (Nat.min (S (S (length rest))) (max_retries - count))) by lia.
+      f_equal.
+      destruct (S (length rest) <=? max_retries - S count)%nat eqn:E4;
+      destruct (S (S (length rest)) <=? max_retries - count)%nat eqn:E5;
+        try reflexivity;
+        (apply Nat.leb_le in E4 || apply Nat.leb_gt in E4);
+        (apply Nat.leb_le in E5 || apply Nat.leb_gt in E5); lia.
+Qed.
+
+Lemma offer_loop_call s v c :
+  s <> 0 -> v <> 0 -> v + N.of_nat (gens_of c) < 2 ^ 64 ->
+  offer_loop (s, v) 0 (fst c) (snd c) = ((s, v + N.of_nat (gens_of c)), call_res s v c).
+Proof.
+  intros Hs Hv Hb. pose proof max_retries_pos as Hp.
+  unfold call_res, gens_of in *.
+  rewrite offer_loop_nonzero; rewrite ?Nat.sub_0_r; auto.
+Qed.
+
+Lemma calls_nonzero h : forall s v,
+  s <> 0 -> v <> 0 -> v + N.of_nat (total_gens h) < 2 ^ 64 ->
+  calls (s, v) h = calls_spec s v h.
+Proof.
+  induction h as [|[d r] t IH]; intros s v Hs Hv Hb; [reflexivity|].
+  cbn [calls calls_spec]. cbn [total_gens fold_right] in Hb. fold (total_gens t) in Hb.
+  pose proof (offer_loop_call s v (d, r) Hs Hv) as Hl. cbn [fst snd] in Hl.
+  rewrite Hl by lia. f_equal.
+  - unfold call_res. destruct (S (length (snd (d, r))) <=? max_retries)%nat; apply IH; lia.
+Qed.
+
+Lemma call_res_not_hangs s v c : call_res s v c <> Hangs.
+Proof. unfold call_res. destruct (_ <=? _)%nat; discriminate. Qed.
+
+Lemma calls_spec_length s v h : length (calls_spec s v h) = length h.
+Proof. revert v. induction h; intros v; simpl; auto. Qed.
+
+Lemma calls_spec_no_hang s v h : ~ In Hangs (calls_spec s v h).
+Proof.
+  revert v. induction h as [|c t IH]; intros v; simpl; [tauto|].
+  intros [H|H]; [eapply call_res_not_hangs; eauto|eapply IH; eauto].
+Qed.
+
+Lemma calls_spec_sid s v h : Forall (fun o => fst o = s) (returned (calls_spec s v h)).
+Proof.
+  revert v. induction h as [|c t IH]; intros v; simpl; auto.
+  unfold call_res. destruct (_ <=? _)%nat; simpl; auto.
+Qed.
+
+Lemma calls_spec_lower s v h : Forall (fun o => v < snd o) (returned (calls_spec s v h)).
+Proof.
+  revert v. induction h as [|c t IH]; intros v; simpl; auto.
+  pose proof (gens_of_pos c) as Hp.
+  assert (Ht : Forall (fun o => v < snd o) (returned (calls_spec s (v + N.of_nat (gens_of c)) t))).
+  { eapply Forall_impl; [|apply IH]. simpl. intros; lia. }
+  unfold call_res. destruct (_ <=? _)%nat; simpl; auto. constructor; auto. simpl. lia.
+Qed.
+
+Lemma strictly_increasing_cons a l :
+  Forall (fun b => a < b) l -> strictly_increasing l -> strictly_increasing (a :: l).
+Proof. intros Hf Hi. simpl. split; auto. destruct l; auto. inversion Hf; auto. Qed.
+
+Lemma calls_spec_incr s v h : strictly_increasing (map snd (returned (calls_spec s v h))).
+Proof.
+  revert v. induction h as [|c t IH]; intros v; simpl; auto.
+  unfold call_res. destruct (_ <=? _)%nat; [|apply IH].
+  cbn [returned map]. apply strictly_increasing_cons; [|apply IH].
+  apply Forall_map. cbn [snd]. apply calls_spec_lower.
+Qed.
+
+Lemma calls_spec_nth s h : forall v k c,
+  nth_error h k = Some c ->
+  nth_error (calls_spec s v h) k =
+  Some (call_res s (v + N.of_nat (total_gens (firstn k h))) c).
+Proof.
+  induction h as [|c0 t IH]; intros v [|k] c H; simpl in *; try discriminate.
+  - inversion H; subst. f_equal. f_equal. lia.
+  - rewrite (IH _ _ _ H). f_equal. f_equal. fold (total_gens (firstn k t)). lia.
+Qed.
+
+Lemma total_gens_firstn_S h : forall k c,
+  nth_error h k = Some c ->
+  total_gens (firstn (S k) h) = (total_gens (firstn k h) + gens_of c)%nat.
+Proof.
+  induction h as [|c0 t IH]; intros [|k] c H; simpl in *; try discriminate.
+  - inversion H; subst. lia.
+  - fold (total_gens (firstn k t)).
+    change (fold_right (fun c1 n => (gens_of c1 + n)%nat) 0%nat
+              match t with [] => [] | x :: l => x :: firstn k l end)
+      with (total_gens (firstn (S k) t)).
+    rewrite (IH _ _ H). lia.
+Qed.
+
+(* the first call of a PeerConnection: saved origin still zero *)
+Lemma offer_loop_first d0 r0 :
+  fst d0 <> 0 -> snd d0 <> 0 -> snd d0 + N.of_nat (gens_of (d0, r0)) < 2 ^ 64 ->
+  offer_loop origin0 0 d0 r0 =
+  ((fst d0, snd d0 + N.of_nat (gens_of (d0, r0) - 1)),
+   if (S (length r0) <=? max_retries)%nat
+   then Returned (fst d0, snd d0 + N.of_nat (gens_of (d0, r0) - 1)) else Excessive).
+Proof.
+  destruct d0 as [s v]. cbn [fst snd]. intros Hs Hv Hb.
+  pose proof max_retries_pos as Hp. unfold gens_of in *. cbn [snd] in *.
+  destruct r0 as [|d' rest].
+  - cbn [offer_loop update origin0 length]. rewrite N.eqb_refl.
+    replace (Nat.min 1 max_retries - 1)%nat with 0%nat by lia.
+    replace (v + N.of_nat 0) with v by lia.
+    destruct (1 <=? max_retries)%nat eqn:E; [reflexivity|apply Nat.leb_gt in E; lia].
+  - cbn [offer_loop update origin0]. rewrite N.eqb_refl. cbn [length] in *.
+    destruct (max_retries <=? 1)%nat eqn:E3.
+    + apply Nat.leb_le in E3.
+      replace (Nat.min (S (S (length rest))) max_retries - 1)%nat with 0%nat by lia.
+      replace (v + N.of_nat 0) with v by lia.
+      destruct (S (S (length rest)) <=? max_retries)%nat eqn:E4; [apply Nat.leb_le in E4; lia|].
+      reflexivity.
+    + apply Nat.leb_gt in E3. rewrite offer_loop_nonzero by lia.
+      replace (Nat.min (S (S (length rest))) max_retries - 1)%nat
+        with (Nat.min (S (length rest)) (max_retries - 1)) by lia.
+      assert (Hc : (S (length rest) <=? max_retries - 1)%nat = (S (S (length rest)) <=? max_retries)%nat).
+      { destruct (S (length rest) <=? max_retries - 1)%nat eqn:E4;
+        destruct (S (S (length rest)) <=? max_retries)%nat eqn:E5;
+          try reflexivity;
+          (apply Nat.leb_le in E4 || apply Nat.leb_gt in E4);
+          (apply Nat.leb_le in E5 || apply Nat.leb_gt in E5); lia. }
+      rewrite Hc. reflexivity.
+Qed.
+
+Definition first_res (d0 : N * N) (r0 : list (N * N)) : call_result :=
+  if (S (length r0) <=? max_retries)%nat
+  then Returned (fst d0, snd d0 + N.of_nat (gens_of (d0, r0) - 1)) else Excessive.
+
+Lemma calls_first d0 r0 (h : list gcall) :
+  fst d0 <> 0 -> snd d0 <> 0 ->
+  snd d0 + N.of_nat (total_gens ((d0, r0) :: h)) < 2 ^ 64 ->
+  calls origin0 ((d0, r0) :: h) =
+  first_res d0 r0 :: calls_spec (fst d0) (snd d0 + N.of_nat (gens_of (d0, r0) - 1)) h.
+Proof.
+  intros Hs Hv Hb. cbn [total_gens fold_right] in Hb. fold (total_gens h) in Hb.
+  pose proof (gens_of_pos (d0, r0)) as Hp.
+  cbn [calls]. rewrite offer_loop_first by lia. fold (first_res d0 r0). f_equal.
+  unfold first_res. destruct (_ <=? _)%nat; apply calls_nonzero; lia.
+Qed.
+
+(* C11 for histories of CreateOffer (with its recompute loop) / CreateAnswer *)
+Lemma recompute_calls d0 r0 (h : list gcall) :
+  fst d0 <> 0 -> snd d0 <> 0 ->
+  snd d0 + N.of_nat (total_gens ((d0, r0) :: h)) < 2 ^ 64 ->
+  let rs := calls origin0 ((d0, r0) :: h) in
+  length rs = S (length h) /\
+  ~ In Hangs rs /\
+  Forall (fun o => fst o = fst d0) (returned rs) /\
+  strictly_increasing (map snd (returned rs)) /\
+  (r0 = [] -> hd_error rs = Some (Returned d0)) /\
+  (forall k c, nth_error ((d0, r0) :: h) k = Some c ->
+     nth_error rs k =
+     Some (if (S (length (snd c)) <=? max_retries)%nat
+           then Returned (fst d0, snd d0 + N.of_nat (total_gens (firstn (S k) ((d0, r0) :: h)) - 1))
+           else Excessive)).
+Proof.
+  intros Hs Hv Hb rs. subst rs. rewrite calls_first by auto.
+  pose proof (gens_of_pos (d0, r0)) as Hp.
+  repeat split.
+  - simpl. now rewrite calls_spec_length.
+  - intros [H|H].
+    + unfold first_res in H. destruct (_ <=? _)%nat; discriminate.
+    + eapply calls_spec_no_hang; eauto.
+  - unfold first_res. destruct (_ <=? _)%nat; cbn [returned]; [constructor; auto|]; apply calls_spec_sid.
+  - unfold first_res. destruct (_ <=? _)%nat; cbn [returned map]; [|apply calls_spec_incr].
+    apply strictly_increasing_cons; [|apply calls_spec_incr].
+    apply Forall_map. cbn [snd]. eapply Forall_impl; [|apply calls_spec_lower]. simpl. intros; lia.
+  - intros ->. unfold first_res, gens_of. cbn [length snd hd_error].
+    pose proof max_retries_pos.
+    destruct (1 <=? max_retries)%nat eqn:E; [|apply Nat.leb_gt in E; lia].
+    replace (Nat.min 1 max_retries - 1)%nat with 0%nat by lia.
+    destruct d0 as [s v]. cbn [fst snd]. do 3 f_equal. lia.
+  - intros [|k] c Hn.
+    + cbn [nth_error] in *. inversion Hn; subst. cbn [snd firstn total_gens fold_right].
+      unfold first_res. rewrite Nat.add_0_r. reflexivity.
+    + cbn [nth_error] in *. rewrite (calls_spec_nth _ _ _ _ _ Hn).
+      unfold call_res. f_equal.
+      destruct (_ <=? _)%nat; auto. do 2 f_equal.
+      change (total_gens (firstn (S (S k)) ((d0, r0) :: h)))
+        with (gens_of (d0, r0) + total_gens (firstn (S k) h))%nat.
+      replace (total_gens (firstn (S k) h)) with (total_gens (firstn k h) + gens_of c)%nat
+        by (symmetry; apply total_gens_firstn_S; exact Hn).
+      change (@firstn (N * N * list (N * N)) k h) with (@firstn gcall k h).
+      pose proof (gens_of_pos c). lia.
+Qed.
+
+Transparent max_retries.
+
 (* ---------- concurrent ---------- *)
 
 Definition logged (p : opc) : bool :=
